@@ -183,6 +183,25 @@ class _IndexedComp(ast.NodeTransformer):
         self.generic_visit(node)
         v = node.value
         k = node.slice.value if isinstance(node.slice, ast.Constant) and isinstance(node.slice.value, int) and not isinstance(node.slice.value, bool) else None
+        if k is None and isinstance(node.slice, ast.UnaryOp) and isinstance(node.slice.op, ast.USub) and isinstance(node.slice.operand, ast.Constant) \
+                and isinstance(node.slice.operand.value, int) and not isinstance(node.slice.operand.value, bool):
+            k = -node.slice.operand.value
+        import copy as _c0
+        # rows picked by a list of indices: A[[i, j, ...]][k] / A[[E for ...]][k] is A[<k-th index>]
+        if k is not None and isinstance(v, ast.Subscript) and isinstance(v.slice, (ast.ListComp, ast.List)) and isinstance(v.value, (ast.Name, ast.Attribute)):
+            inner = self.visit(ast.Subscript(_c0.deepcopy(v.slice), ast.Constant(k), ast.Load()))
+            if not (isinstance(inner, ast.Subscript) and isinstance(inner.value, (ast.ListComp,))):
+                return ast.copy_location(ast.Subscript(v.value, inner, ast.Load()), node)
+        if k is not None and isinstance(v, ast.List) and -len(v.elts) <= k < len(v.elts) and not any(isinstance(e, ast.Starred) for e in v.elts):
+            return v.elts[k]
+        # np.diff(X, axis=0)[k]: the k-th difference of consecutive rows
+        if k is not None and isinstance(v, ast.Call) and isinstance(v.func, ast.Attribute) and v.func.attr == "diff" and v.args \
+                and (len(v.args) == 1 or (len(v.args) == 2)) and all(kw.arg == "axis" and isinstance(kw.value, ast.Constant) and kw.value.value == 0 for kw in v.keywords):
+            X = v.args[0]
+            hi, lo = (k + 1, k) if k >= 0 else (k, k - 1)
+            a = self.visit(ast.Subscript(_c0.deepcopy(X), ast.Constant(hi), ast.Load()))
+            b = self.visit(ast.Subscript(_c0.deepcopy(X), ast.Constant(lo), ast.Load()))
+            return ast.copy_location(ast.BinOp(a, ast.Sub(), b), node)
         if k is None or not isinstance(v, (ast.ListComp, ast.GeneratorExp)) or len(v.generators) != 1:
             return node
         g = v.generators[0]
